@@ -20,14 +20,19 @@ fn any_origin() -> Origin {
 }
 
 // ---------------------------------------------------------------------------
-// (a) classification of ONE symbolic character (all of Unicode), per concrete IFS.
+// (a) classification of ONE character from 16 candidates x all attributes, per concrete IFS.
 // Spec (XCU 2.6.5): only an unquoted, non-quoting character that results from a
 // parameter/command/arithmetic expansion ("soft expansion") can be a separator; it is
 // one iff it occurs in IFS; it is IFS white space iff it is <space>, <tab> or <newline>.
 // ---------------------------------------------------------------------------
-fn check_classify(ifs_str: &'static str, members: &[char]) {
-    let ifs = Ifs::new(ifs_str);
-    let c: char = kani::any();
+/// Candidate characters: every member of the IFS values used below plus characters outside
+/// them, including white space that is not in IFS (\r), NUL, DEL and three non-ASCII
+/// characters. The character is arm-concrete (a symbolic needle sends `str::contains` into
+/// std's generic substring searcher: neither all of Unicode nor all of ASCII finished in
+/// 15 min); origin and the two quoting attributes are symbolic in every arm.
+const CANDIDATES: [char; 16] = [' ', '\t', '\n', '-', ':', 'a', 'b', '\r', '\0', '\u{7f}', '$', '\\', '\u{a0}', '\u{3000}', 'é', 'z'];
+
+fn check_one(ifs: &Ifs, members: &[char], c: char) {
     let origin = any_origin();
     let is_quoted: bool = kani::any();
     let is_quoting: bool = kani::any();
@@ -47,10 +52,26 @@ fn check_classify(ifs_str: &'static str, members: &[char]) {
         Class::IfsNonWhitespace
     };
     assert!(got == want, "C01 IFS classification of one character");
-    kani::cover!(want == Class::NonIfs && member, "IFS character protected by quoting or origin");
-    if !members.is_empty() {
+    if member {
+        kani::cover!(want == Class::NonIfs, "IFS character protected by quoting or origin");
         kani::cover!(separator, "separator reachable");
     }
+}
+
+fn check_classify(ifs_str: &'static str, members: &[char]) {
+    let ifs = Ifs::new(ifs_str);
+    let sel: u8 = kani::any();
+    kani::assume(sel < 16);
+    macro_rules! arm {
+        ($i:expr) => {
+            if sel == $i {
+                check_one(&ifs, members, CANDIDATES[$i]);
+            }
+        };
+    }
+    arm!(0); arm!(1); arm!(2); arm!(3); arm!(4); arm!(5); arm!(6); arm!(7);
+    arm!(8); arm!(9); arm!(10); arm!(11); arm!(12); arm!(13); arm!(14); arm!(15);
+    kani::cover!(sel == 15, "last arm reachable");
 }
 
 macro_rules! classify_harness {
@@ -160,7 +181,8 @@ fn any_chars<const N: usize>() -> [AttrChar; N] {
     a
 }
 
-fn check_split<const N: usize>(loc: &Location) {
+/// The iterator alone (no heap): every sequence of N characters.
+fn check_ranges<const N: usize>() {
     let chars = any_chars::<N>();
     let mut cls = [0u8; N];
     let mut i = 0;
@@ -170,7 +192,6 @@ fn check_split<const N: usize>(loc: &Location) {
     }
     let (want, n) = ref_split(&cls);
     let ifs = Ifs::new(" -");
-    // the iterator
     let mut it = ifs.ranges(chars.iter().copied());
     let mut k = 0;
     while k < n {
@@ -180,7 +201,25 @@ fn check_split<const N: usize>(loc: &Location) {
     }
     assert!(it.next().is_none(), "C01 no further field");
     assert!(it.next().is_none(), "C01 iterator is fused");
-    // split_into on a real AttrField
+    kani::cover!(n >= 2, "two or more fields");
+    if N >= 2 {
+        kani::cover!(n >= 1 && want[0].start == want[0].end, "empty field from a non-white-space separator");
+    }
+}
+
+/// split_into on a real AttrField (heap, Location): fields carry the characters of their range
+/// with all attributes, and the origin of the field.
+#[allow(dead_code)]
+fn check_split_into<const N: usize>(loc: &Location) {
+    let chars = any_chars::<N>();
+    let mut cls = [0u8; N];
+    let mut i = 0;
+    while i < N {
+        cls[i] = class_of(&chars[i]);
+        i += 1;
+    }
+    let (want, n) = ref_split(&cls);
+    let ifs = Ifs::new(" -");
     let field = AttrField { chars: chars.to_vec(), origin: loc.clone() };
     let mut results: Vec<AttrField> = Vec::new();
     split_into(field, &ifs, &mut results);
@@ -200,33 +239,58 @@ fn check_split<const N: usize>(loc: &Location) {
         k += 1;
     }
     kani::cover!(n >= 2, "two or more fields");
-    if N >= 2 {
-        kani::cover!(n >= 1 && want[0].start == want[0].end, "empty field from a non-white-space separator");
-    }
     std::mem::forget(results);
 }
 
-macro_rules! split_harness {
-    ($name:ident, $($n:literal),*) => {
+macro_rules! ranges_harness {
+    ($name:ident, $n:literal, $u:literal) => {
         #[kani::proof]
-        #[kani::unwind(12)]
+        #[kani::unwind($u)] // = length + 3: every loop here is bounded by the length (+ end of input)
         #[kani::stub(yash_env::semantics::expansion::split::Ifs::classify_attr, spec_classify_attr)]
         fn $name() {
-            let loc = Location::dummy("");
-            let keep = loc.clone();
-            let sel: u8 = kani::any();
-            kani::assume(false $( || sel == $n )*);
-            $( if sel == $n { check_split::<$n>(&loc); } )*
-            std::mem::forget(keep);
-            std::mem::forget(loc);
+            check_ranges::<$n>();
+            kani::cover!(true, "each: reached");
         }
     };
 }
-split_harness!(c01_split_0_3, 0, 1, 2, 3);
-split_harness!(c01_split_4, 4);
-split_harness!(c01_split_5, 5);
-split_harness!(c01_split_6, 6);
-split_harness!(c01_split_7, 7);
+ranges_harness!(c01_ranges_0, 0, 3);
+ranges_harness!(c01_ranges_1, 1, 4);
+ranges_harness!(c01_ranges_2, 2, 5);
+ranges_harness!(c01_ranges_3, 3, 6);
+ranges_harness!(c01_ranges_4, 4, 7);
+ranges_harness!(c01_ranges_5, 5, 8);
+ranges_harness!(c01_ranges_6, 6, 9);
+ranges_harness!(c01_ranges_7, 7, 10);
+
+// check_split_into with one or more characters is not registered: even with one character CBMC
+// ran out of memory (the Vec<AttrField> results, each owning a Location, are encoded bytewise).
+// The empty field is decided for both kinds of IFS: an empty unquoted expansion result yields no
+// field at all, whatever IFS is (XCU 2.6.5).
+fn check_split_into_empty(ifs_str: &'static str) {
+    let loc = Location::dummy("");
+    let keep = loc.clone();
+    let ifs = Ifs::new(ifs_str);
+    let field = AttrField { chars: Vec::new(), origin: loc.clone() };
+    let mut results: Vec<AttrField> = Vec::new();
+    split_into(field, &ifs, &mut results);
+    assert!(results.is_empty(), "C01 an empty expansion result yields no field, whatever IFS is");
+    kani::cover!(true, "reached");
+    std::mem::forget(results);
+    std::mem::forget(keep);
+    std::mem::forget(loc);
+}
+
+#[kani::proof]
+#[kani::unwind(4)]
+fn c01_split_into_empty_field_ifs_empty() {
+    check_split_into_empty("");
+}
+
+#[kani::proof]
+#[kani::unwind(4)]
+fn c01_split_into_empty_field_ifs_space_dash() {
+    check_split_into_empty(" -");
+}
 
 // ---------------------------------------------------------------------------
 // (c) quote removal + attribute stripping: the values of the characters that are not
@@ -257,14 +321,18 @@ fn check_strip<const N: usize>() {
 }
 
 macro_rules! strip_harness {
-    ($name:ident, $($n:literal),*) => {
+    ($name:ident, $n:literal) => {
         #[kani::proof]
         #[kani::unwind(8)]
         fn $name() {
-            let sel: u8 = kani::any();
-            kani::assume(false $( || sel == $n )*);
-            $( if sel == $n { check_strip::<$n>(); } )*
+            check_strip::<$n>();
+            kani::cover!(true, "each: reached");
         }
     };
 }
-strip_harness!(c01_strip_0_5, 0, 1, 2, 3, 4, 5);
+strip_harness!(c01_strip_0, 0);
+strip_harness!(c01_strip_1, 1);
+strip_harness!(c01_strip_2, 2);
+strip_harness!(c01_strip_3, 3);
+strip_harness!(c01_strip_4, 4);
+strip_harness!(c01_strip_5, 5);
